@@ -37,6 +37,12 @@ func (k msgServer) AddFeeToDispute(goCtx context.Context,
 	if sender.Equals(sdk.MustAccAddressFromBech32(dispute.InitialEvidence.Reporter)) && msg.PayFromBond {
 		return nil, errors.New("disputed reporter can't add fee from bond")
 	}
+	// fees are only collected while the dispute is waiting to be funded: an executed dispute that ended
+	// against the disputer has its slash amount raised above the fee total and must not be funded (and
+	// slashed and voted on) a second time
+	if dispute.DisputeStatus != types.Prevote {
+		return nil, types.ErrDisputeFeeAlreadyMet
+	}
 	// check if time to add fee has expired
 	if ctx.BlockTime().After(dispute.DisputeEndTime) {
 		return nil, types.ErrDisputeTimeExpired
